@@ -45,7 +45,10 @@ fn run_sweep(ctx: &Ctx) -> CheckResult {
     let strict = ctx.api.caps().strict;
     for va in ctx.api.variants() {
         let v = va.v();
-        let bases = ctx.sample_values(&format!("sweepbase/{}", v.name), ctx.tier.pick(1, 3), &proptest::collection::vec(any::<u8>(), v.size()));
+        let mut bases = ctx.sample_values(&format!("sweepbase/{}", v.name), ctx.tier.pick(1, 3), &proptest::collection::vec(any::<u8>(), v.size()));
+        // digit neighbourhoods that table tricks depend on: all '0' and all 'F' digits
+        bases.push(vec![0u8; v.size()]);
+        bases.push(vec![0xFFu8; v.size()]);
         for mut base in bases {
             if strict {
                 // keep the base itself acceptable so that single-byte changes decide the verdict
